@@ -1,0 +1,82 @@
+//go:build verif
+
+package server
+
+import (
+	"strconv"
+	"strings"
+	"sync"
+	"time"
+)
+
+// Barrier mode for the suspension points of verif_on.go (build tag `verif` only).
+//
+// An item "point=@n:timeout_ms" in VERIF_DELAYS makes `point` a barrier: callers
+// wait there until n of them have arrived (or timeout_ms have passed since the
+// first arrival of the group) and are then released together, which lines up the
+// code that follows the point in several goroutines. (The delay parser of
+// verif_on.go skips such items: "@n" is not a number.)
+
+type verifBarrier struct {
+	n       int
+	timeout time.Duration
+	waiting int
+	release chan struct{}
+}
+
+var verifBarriers struct {
+	sync.Mutex
+	m map[string]*verifBarrier
+}
+
+func verifBarrierLoad(delays string) {
+	verifBarriers.Lock()
+	defer verifBarriers.Unlock()
+	verifBarriers.m = map[string]*verifBarrier{}
+	for _, item := range strings.Split(delays, ",") {
+		kv := strings.SplitN(strings.TrimSpace(item), "=", 2)
+		if len(kv) != 2 || !strings.HasPrefix(kv[1], "@") {
+			continue
+		}
+		parts := strings.SplitN(kv[1][1:], ":", 2)
+		if len(parts) != 2 {
+			continue
+		}
+		n, err1 := strconv.Atoi(parts[0])
+		ms, err2 := strconv.Atoi(parts[1])
+		if err1 != nil || err2 != nil || n < 2 {
+			continue
+		}
+		verifBarriers.m[kv[0]] = &verifBarrier{n: n, timeout: time.Duration(ms) * time.Millisecond}
+	}
+}
+
+func verifBarrierWait(name string) {
+	verifBarriers.Lock()
+	b := verifBarriers.m[name]
+	if b == nil {
+		verifBarriers.Unlock()
+		return
+	}
+	if b.release == nil {
+		ch := make(chan struct{})
+		b.release, b.waiting = ch, 0
+		go func() {
+			time.Sleep(b.timeout)
+			verifBarriers.Lock()
+			if b.release == ch {
+				close(ch)
+				b.release = nil
+			}
+			verifBarriers.Unlock()
+		}()
+	}
+	gate := b.release
+	b.waiting++
+	if b.waiting >= b.n {
+		close(b.release)
+		b.release = nil
+	}
+	verifBarriers.Unlock()
+	<-gate
+}
